@@ -219,6 +219,13 @@ Definition below1 (iob : bytes) (start : nat) : option bytes :=
 Definition below2 (iob : bytes) (start : nat) : option bytes :=
   match start with S (S k) => Some (read iob k) | _ => None end.
 
+(* what connect does with a validated chunk: _write, then io.truncate() at the end of the chunk and
+   _size = tell // header_size -- headers stored above a newly connected chunk belong to an abandoned fork *)
+Definition connect_write (s : st) (start : nat) (batch : bytes) : st :=
+  let w := do_write s start batch in
+  let pos := HS * start + length batch in
+  mkSt (firstn pos (io w)) (Nat.div pos HS) (missing s).
+
 (* Headers.connect (chunk_getter unset).  chunk_size is 10^16, so the batch is one chunk; InvalidHeader
    always carries the chunk's start height, hence nothing of an invalid batch is written. *)
 Definition connect (c : cfg) (s : st) (start : nat) (batch : bytes) : st * cres :=
@@ -230,16 +237,16 @@ Definition connect (c : cfg) (s : st) (start : nat) (batch : bytes) : st * cres 
     | Some e => (s, CInvalid e)
     | None => match batch with
               | [] => (s, COk 0)
-              | _ => (do_write s start batch, COk n)
+              | _ => (connect_write s start batch, COk n)
               end
     end.
 
 (* ---- repair ---- *)
-(* heights visited by `for height in range(start, self.height, 36)` reading 36 headers each:
+(* heights visited by `for height in range(start, len(self), 36)` reading 36 headers each:
    [start, visited_end) *)
 Definition visited_end (start sz whole : nat) : nat :=
-  if Nat.ltb (S start) sz
-  then Nat.min whole (start + BATCH * (S (Nat.div (sz - 2 - start) BATCH)))
+  if Nat.ltb start sz
+  then Nat.min whole (start + BATCH * (S (Nat.div (sz - 1 - start) BATCH)))
   else start.
 
 (* first height whose prev_block_hash does not match the hash of the header read just before *)
